@@ -1,0 +1,31 @@
+//go:build verif
+
+package engine
+
+// Observation hooks for the DCG translation (property C17 of the /verif harness).
+// Nothing here changes behaviour; without the tag this file is not compiled.
+
+// VerifDCGBody exposes dcgBody, the translation phrase/3 applies to its first argument
+// at call time (and expandDCG applies to the body of a rule).
+func VerifDCGBody(body, s0, s Term, env *Env) (Term, error) { return dcgBody(body, s0, s, env) }
+
+// VerifSeqItems lists the goals seqIterator yields for a clause body, i.e. the goals
+// compileBody compiles inline (a `!` among them becomes opCut, everything else opCall).
+func VerifSeqItems(body Term, env *Env) []Term {
+	var out []Term
+	iter := seqIterator{Seq: body, Env: env}
+	for iter.Next() {
+		out = append(out, iter.Current())
+	}
+	return out
+}
+
+// VerifAltItems lists the bodies altIterator splits a clause body into (one clause each).
+func VerifAltItems(body Term, env *Env) []Term {
+	var out []Term
+	iter := altIterator{Alt: body, Env: env}
+	for iter.Next() {
+		out = append(out, iter.Current())
+	}
+	return out
+}
